@@ -384,8 +384,24 @@ func c32Exec(t *testing.T, sc *gen.Scenario, trace bool) *harness.Outcome {
 					return
 				}
 				if errA == nil && errN == nil && !faulty && !azTruncated && !natTruncated && len(st.Unevaluable(rq.Ctx)) == 0 && strings.Join(sorted(got), ",") != strings.Join(sorted(nat), ",") {
-					e.Violate("subject_search_differs", "", "subjectsearch(%s %s filter=%s)=%v but native listusers=%v", rq.Obj, rq.Rel, rq.Filter, sorted(got), sorted(nat))
-					return
+					// ListUsers itself has more than one correct answer for some states (a user who is also
+					// covered by a returned wildcard may or may not be listed, depending on which branch
+					// finishes first; C06 admits both). "The same results as ListUsers" can then only mean "a
+					// result ListUsers gives": the native call is repeated under other schedules, and only an
+					// AuthZEN answer the native API never gives is a disagreement.
+					matched := false
+					for k := 0; k < 6 && !matched; k++ {
+						ctx, cancel := reqCtx(i, fmt.Sprintf(".native%d", k+2), 10*time.Second)
+						again, errR := e.SrvListUsers(ctx, s, rq)
+						cancel()
+						matched = errR == nil && strings.Join(sorted(again), ",") == strings.Join(sorted(got), ",")
+					}
+					if matched {
+						simrt.Probe("native_listusers_schedule_dependent")
+					} else {
+						e.Violate("subject_search_differs", "", "subjectsearch(%s %s filter=%s)=%v but native listusers=%v (and in 6 more native calls under other schedules)", rq.Obj, rq.Rel, rq.Filter, sorted(got), sorted(nat))
+						return
+					}
 				}
 			}
 			if e.Out.Violation != nil {
